@@ -11,6 +11,8 @@ use self::vm_layout::vm_layout;
 mod map32;
 #[cfg(target_pointer_width = "64")]
 mod map64;
+#[cfg(all(any(kani, mmtk_verif), target_pointer_width = "64"))]
+pub use self::map64::verif_hooks as verif_hooks_map64;
 
 #[cfg(target_pointer_width = "32")]
 pub fn create_vm_map() -> Box<dyn VMMap + Send + Sync> {
